@@ -253,7 +253,7 @@ func TestPinnedRows(t *testing.T) {
 	m = get("NegLocalNamedLikeTheMutex")
 	check(m.mutex == "local:mu" && has(m, "a", "assign", "none", "local:mu"), "a local called mu is not the receiver's mu", m)
 	m = get("NegForeignLockOnly")
-	check(m.mutex == "o.mu" && has(m, "a", "assign", "none", "o.mu"), "holding another object's lock is not holding the receiver's", m)
+	check(m.mutex == "arg0.mu" && has(m, "a", "assign", "none", "arg0.mu"), "holding another object's lock is not holding the receiver's", m)
 	m = get("NegGoroutineWrites")
 	check(has(m, "a", "assign", "none", ""), "a goroutine's write is unlocked", m)
 	m = get("NegPreludeTouchesState")
